@@ -66,7 +66,8 @@ where
             "".into()
         };
         let name = if !self.name.is_empty() {
-            format!(":name \"{}\"", &self.name)
+            // The name is a string literal in the source: escape it like one.
+            format!(":name {}", Literal::String(self.name.clone()))
         } else {
             "".into()
         };
